@@ -97,6 +97,7 @@ let handle (toks : string list) : string =
      | DUnknownType (id, _) -> "unknowntype " ^ hex_of_bytes id
      | DBadBody (id, t) ->
        "badbody " ^ hex_of_bytes id ^ " " ^ (match int_of_n t with 134 -> "ping" | 135 -> "pong" | 136 -> "findnode" | _ -> "neighbors")
+     | DTooSmallBody id -> "toosmallbody " ^ hex_of_bytes id
      | DPanic -> "panic"
      | DOk (m, id, hash) ->
        "ok " ^ kind_of m ^ " " ^ hex_of_bytes id ^ " " ^ hex_of_bytes hash ^ " " ^ hex_of_bytes (encode_msg m))
